@@ -1,6 +1,6 @@
 /-
-  Lemmas/TextHexNeg — a leading `-` of a hexadecimal text is honoured exactly when the digit string is shorter
-  than the width (fewer than 2·(nbits/8) nibbles), because only then does the right-to-left scanner reach it.
+  Lemmas/TextHexNeg — a leading sign of a hexadecimal text is honoured for digit strings of ANY length: the repaired
+  right-to-left scanner skips the digits above the width and always reaches the `x`, the `0` and the sign.
 -/
 import UVerifProofs.Lemmas.TextIntRoundtrip
 
@@ -14,74 +14,31 @@ theorem leHex_lt : ∀ (C : List Char), (∀ c ∈ C, isHexDigit c = true) → l
     simp only [leHex, List.length_cons, Nat.pow_succ]
     omega
 
-theorem intHexLoop_neg (n mb : Nat) :
-    ∀ (k : Nat) (C : List Char), C.length ≤ k → (∀ c ∈ C, isHexDigit c = true) →
-      ∀ (idx value byte : Nat), C.length < 2 * (mb - idx) → value < 2 ^ (8 * idx) →
-        intHexLoop n mb (C ++ ['x', '0', '-']) byte idx false value
-          = (negN n (value + leHex C * 2 ^ (8 * idx)), true) := by
-  intro k
-  induction k with
-  | zero =>
-    intro C hk _ idx value byte hidx _
-    have : C = [] := List.length_eq_zero_iff.mp (by omega)
-    subst this
-    have hlt : ¬ (idx ≥ mb) := by simp at hidx; omega
-    simp [intHexLoop, hlt, leHex]
-  | succ k ih =>
-    intro C hk hC idx value byte hidx hval
-    have hlt : ¬ (idx ≥ mb) := by omega
-    match C, hk, hC, hidx with
-    | [], _, _, _ => simp [intHexLoop, hlt, leHex]
-    | [c], _, hC, _ =>
-      obtain ⟨h1, h2, h3, h4, h5⟩ := isHexDigit_facts c (hC c (List.mem_cons_self ..))
-      simp only [List.cons_append, List.nil_append]
-      rw [intHexLoop]
-      simp only [hlt, if_false, h1, h2, h3, or_self, h4, Option.getD_some, Bool.false_eq_true]
-      rw [intHexLoop]
-      simp only [hlt, if_false, show ('x' : Char) ≠ '\'' by decide, true_or, if_true]
-      rw [setByte_fresh value idx (hv c) hval (by omega)]
-      simp [leHex]
-    | c0 :: c1 :: C', hk, hC, hidx =>
-      obtain ⟨a1, a2, a3, a4, a5⟩ := isHexDigit_facts c0 (hC c0 (List.mem_cons_self ..))
-      obtain ⟨b1, b2, b3, b4, b5⟩ := isHexDigit_facts c1 (hC c1 (List.mem_cons_of_mem _ (List.mem_cons_self ..)))
-      simp only [List.cons_append]
-      rw [intHexLoop]
-      simp only [hlt, if_false, a1, a2, a3, or_self, a4, Option.getD_some, Bool.false_eq_true]
-      rw [intHexLoop]
-      simp only [hlt, if_false, b1, b2, b3, or_self, b4, Option.getD_some, if_true]
-      have hbyte : hv c0 + hv c1 * 16 < 256 := by omega
-      rw [setByte_fresh value idx _ hval hbyte]
-      have hval' : value + (hv c0 + hv c1 * 16) * 2 ^ (8 * idx) < 2 ^ (8 * (idx + 1)) := by
-        rw [show 8 * (idx + 1) = 8 * idx + 8 by omega, Nat.pow_add]
-        generalize 2 ^ (8 * idx) = P at *
-        nlinarith
-      rw [ih C' (by simp at hk; omega) (fun c hc => hC c (List.mem_cons_of_mem _ (List.mem_cons_of_mem _ hc)))
-        (idx + 1) _ _ (by simp at hidx; omega) hval']
-      congr 2
-      have hP : (2 : Nat) ^ (8 * (idx + 1)) = 2 ^ (8 * idx) * 256 := by
-        rw [show 8 * (idx + 1) = 8 * idx + 8 by omega, Nat.pow_add]
-      rw [hP]
-      simp only [leHex]
-      ring
+theorem integerForm_pos (t : List Char) : integerForm ('+' :: t) = integerForm t := by
+  unfold integerForm
+  simp [dropSigns]
 
-theorem negN_lt (n a : Nat) : negN n a < 2 ^ n := Nat.mod_lt _ (Nat.two_pow_pos n)
-
-/-- **a negative hexadecimal text shorter than the width** parses to the two's complement of its magnitude. -/
-theorem integerParse_hex_neg (n : Nat) (hs : List Char) (V : Nat) (h8 : 8 ∣ n) (hne : hs ≠ [])
-    (hh : ∀ c ∈ hs, isHexDigit c = true) (hshort : hs.length < 2 * (n / 8)) (hV : hexStrVal? hs 0 = some V) :
+/-- **a negative hexadecimal text** `-0x…` of ANY length, ANY width, parses to the two's complement of its
+    magnitude (mod 2^nbits). -/
+theorem integerParse_hex_neg (n : Nat) (hs : List Char) (V : Nat) (hne : hs ≠ [])
+    (hh : ∀ c ∈ hs, isHexDigit c = true) (hV : hexStrVal? hs 0 = some V) :
     integerParse n ('-' :: '0' :: 'x' :: hs) = some (negN n V) := by
-  obtain ⟨j, rfl⟩ := h8
-  rw [hexStrVal_eq hs 0 hh] at hV
-  simp only [Nat.zero_mul, Nat.zero_add, Option.some.injEq] at hV
   unfold integerParse
   rw [integerForm_neg, integerForm_toHex hs hne hh]
   simp only
-  have hrev : ('-' :: '0' :: 'x' :: hs).reverse = hs.reverse ++ ['x', '0', '-'] := by simp
-  rw [hrev, show 8 * j / 8 = j by omega] at *
-  rw [intHexLoop_neg (8 * j) j hs.reverse.length hs.reverse (Nat.le_refl _)
-    (fun c hc => hh c (List.mem_reverse.mp hc)) 0 0 0 (by simpa using hshort) (by simp)]
-  simp only [Nat.zero_add, Nat.mul_zero, Nat.pow_zero, Nat.mul_one, hV]
-  rw [Nat.mod_eq_of_lt (negN_lt _ _)]
-  simp
+  have hrev : ('-' :: '0' :: 'x' :: hs).reverse = hs.reverse ++ 'x' :: ['0', '-'] := by simp
+  rw [hrev, intHexLoop_text n hs V ['0', '-'] hh hV]
+  simp [hexTail, negN_mod, Nat.mod_eq_of_lt (negN_lt _ _)]
+
+/-- an explicit `+` changes nothing. -/
+theorem integerParse_hex_pos (n : Nat) (hs : List Char) (V : Nat) (hne : hs ≠ [])
+    (hh : ∀ c ∈ hs, isHexDigit c = true) (hV : hexStrVal? hs 0 = some V) :
+    integerParse n ('+' :: '0' :: 'x' :: hs) = some (V % 2 ^ n) := by
+  unfold integerParse
+  rw [integerForm_pos, integerForm_toHex hs hne hh]
+  simp only
+  have hrev : ('+' :: '0' :: 'x' :: hs).reverse = hs.reverse ++ 'x' :: ['0', '+'] := by simp
+  rw [hrev, intHexLoop_text n hs V ['0', '+'] hh hV]
+  simp [hexTail]
 
 end UVerif.Text
